@@ -85,8 +85,16 @@ func (w *walker) walk(node *Node) {
 	case *PointerNode:
 		w.visitor.Exit(node)
 	case *ConditionalNode:
+		// The parser builds `a ?: b` with one node in the condition and
+		// the first-arm slot: it is walked once, and a replacement of it
+		// takes both slots.
+		shared := n.Cond == n.Exp1
 		w.walk(&n.Cond)
-		w.walk(&n.Exp1)
+		if shared {
+			n.Exp1 = n.Cond
+		} else {
+			w.walk(&n.Exp1)
+		}
 		w.walk(&n.Exp2)
 		w.visitor.Exit(node)
 	case *ArrayNode:
